@@ -21,7 +21,7 @@ RULE = ('(a) Utility::Match against the Gallina glob matcher: ALL patterns of le
         'declared per case through ScriptGlobal), the request carries filter_vars of that very name with a value that would flip the verdict (and names of navigation fields, this, globals), '
         'the user filter is on the generic path (match / regex / len / in) or on the targeted fast path, through GetFilterTargets with every handler\'s QueryDescription and the HTTP handlers; '
         'family join-same-name: Hosts named like CheckCommand / EventCommand / TimePeriod / Endpoint / Zone objects of the fixture, permissions differing per joined type, several joins per request '
-        'in every order, hosts and services as primary type, every serialised join observed; 45% of the mixed cases also declare globals and use free-name / function-call atoms. non-trivial = the case contains a query that returned at least one object or was refused; distinct = distinct script text')
+        'in every order, hosts and services as primary type, every serialised join observed; 45% of the mixed cases also declare globals and use free-name / function-call atoms. family attrs (round 5): GET /v1/objects/<type> through the real ObjectQueryHandler with every shape of attrs (absent, empty, ordinary fields, [config, navigation] fields, the object-valued navigation field Service.host, no_user_view fields, unknown names, fields of the other type), joins (bare prefix, <join>.<field> with ordinary / hidden / unknown fields, foreign prefixes), all_joins and meta (used_by, location, unknown), for users whose permission for the joined types is absent / plain / filtered: the KEY SET of every attrs dictionary, the joined objects, every config object embedded anywhere in a serialised value and the number of hidden fields among the keys are observed; one case compares the live reflection data of Host, Service, CheckCommand, EventCommand, TimePeriod, Endpoint with the regenerated field tables; family race (round 5): directed schedules - a modify / delete / action / query request (by URL name, name parameter, name list, type scan, fast path) is parked while the permission filter evaluates the target, another writer takes the name lock, deletes the target and creates a new object of the same name with other attributes, the request continues: which OBJECT was acted on is observed. non-trivial = the case contains a query that returned at least one object or was refused; distinct = distinct script text')
 TRUSTED = ['model: coq/Perm/PmModel.v (transcription of FilterUtility::HasPermission/CheckPermission/EvaluateFilter/GetFilterTargets, '
            'ApplyRule::GetTargetHosts/GetTargetServices, the filter_vars shadowing guard, the namespace resets of the permission frame, the joins loop of ObjectQueryHandler; glob matcher proved equivalent to a declarative '
            'spec and compared exhaustively with Utility::Match on short strings)',
@@ -32,12 +32,16 @@ TRUSTED = ['model: coq/Perm/PmModel.v (transcription of FilterUtility::HasPermis
            '(tied by the source fact f_pm_perm_ns_private and by the env-separation family)',
            'source facts re-extracted each run: permission string and CheckPermission/GetFilterTargets call of every registered HTTP handler, '
            'navigation fields of Host/Service from the .ti files, structure of EvaluateFilter\'s binding loop (coq/Facts/Facts_c18.v)',
-           'harness/ops_pm.cpp: exception classes (ScriptError / invalid_argument), object sets and HTTP status are observed; no log text']
+           'harness/ops_pm.cpp: exception classes (ScriptError / invalid_argument), object sets and HTTP status are observed; no log text',
+           'attribute model coq/Perm/PmAttrs.v (transcription of ObjectQueryHandler::SerializeObjectAttrs and of the per-object part of HandleRequest: meta, attrs, joins), generic in the field table; the tables are regenerated from the .ti files and lib/base/objecttype.cpp (coq/Facts/Facts_c18.v f_pm_field_tables) and compared as sets with the live reflection data (op pm_fields); an embedded config object is recognised in a response as a dictionary with type = a config type and __name',
+           'concurrency model coq/Perm/PmConc.v: GetFilterTargets is ONE atomic step whose result satisfies C18_only_permitted at that moment (linearised at the resolution of the target), registry operations are atomic, ObjectNameLock is mutual exclusion per name, an object keeps the attributes it had when it was authorised; the tie samples ONE directed schedule per request shape (parking inside the permission filter through a side-effect-free native function pm_sig registered by the harness; no hook in /repo)']
 ASSUMPTIONS = ['ASCII permission strings and object names (String::ToLower and tolower agree on ASCII)',
                'object names are unique per type (ConfigObject registry) and contain no "!" (enforced by Icinga name validation)',
                'no empty-string values in filters (Icinga treats "" as Empty in ==)', 'filters do not mention the names EvaluateFilter binds (obj, host, service, navigation fields) as FREE names; as filter_vars KEYS those names are generated',
                'a free name keeps its kind (string / array of strings) in globals and filter_vars; regex literals are [A-Za-z0-9-]+',
-               'the used_by meta list and get_object() inside user filters are outside the statement (DESIGN.md C18)']
+               'the used_by meta list and get_object() inside user filters are outside the statement (DESIGN.md C18)',
+               'attribute names and join selectors are non-empty ASCII strings; values nested inside vars never hold config objects',
+               'the fixture objects are not API-created, so DELETE is refused by ConfigObjectUtility::DeleteObject for every object: for delete the race op can only observe that the NEW object stays untouched']
 
 
 FREE_SHARE = [0.0]     # share of atoms with free names / function calls in random filters (set per case)
@@ -790,6 +794,238 @@ def gen_join_names_case(rnd):
 
 
 
+# ---------------------------------------------------------------- round 5 (f): attribute selection of the object query
+A_ORD = {'Host': ['name', '__name', 'display_name', 'address', 'vars', 'zone', 'state', 'last_check_result', 'templates', 'type', 'active',
+                  'groups', 'check_interval', 'notes', 'original_attributes', 'package', 'version', 'last_state_up', 'ha_mode'],
+         'Service': ['name', '__name', 'display_name', 'host_name', 'vars', 'zone', 'state', 'last_check_result', 'templates', 'type', 'active',
+                     'groups', 'check_interval', 'notes', 'original_attributes', 'package', 'version', 'last_state_ok', 'ha_mode']}
+A_NAV = ['check_command', 'check_period', 'event_command', 'command_endpoint']       # [config, navigation]: the NAME is serialised
+A_NAVOBJ = ['host']                                                                 # [no_storage, navigation] Host::Ptr (Service only)
+A_HIDDEN = ['state_raw', 'last_state_raw', 'flapping_buffer', 'flapping_index', 'extensions', 'start_called', 'icingadb_identifier',
+            'pending_executions', 'suppressed_notifications', 'state_loaded', 'last_check_started']
+A_UNKNOWN = ['bogus', 'Host', 'HOST', 'host.name', 'Name', 'vars.os', 'service', 'hosts', 'check_command.name', 'attrs', '*']
+J_FIELDS = {'host': ['name', 'address', 'vars', 'display_name', 'state', 'check_command', 'zone', 'type', '__name'],
+            'check_command': ['name', 'command', 'arguments', 'timeout', 'vars', '__name', 'type'],
+            'check_period': ['name', 'ranges', 'display_name', 'is_inside', 'segments', '__name'],
+            'event_command': ['name', 'command', 'env', '__name'],
+            'command_endpoint': ['name', 'host', 'port', 'connected', 'log_duration', '__name']}
+J_BAD = ['bogus', 'host', 'service', 'password', '', 'Name', 'vars.os', 'address6x']
+
+
+def gen_attr_list(rnd, t):
+    k = rnd.random()
+    if k < 0.12:
+        return None                                     # no attrs: everything visible
+    if k < 0.16:
+        return []
+    out = []
+    for i in range(rnd.choice((1, 1, 2, 2, 3, 4))):
+        m = rnd.random()
+        if m < 0.4:
+            out.append(rnd.choice(A_ORD[t]))
+        elif m < 0.55:
+            out.append(rnd.choice(A_NAV))
+        elif m < 0.75:
+            out.append(rnd.choice(A_NAVOBJ))            # on hosts: an unknown field
+        elif m < 0.9:
+            out.append(rnd.choice(A_HIDDEN))
+        else:
+            out.append(rnd.choice(A_UNKNOWN + A_ORD['Host' if t == 'Service' else 'Service'][:4]))
+    return out
+
+
+def gen_join_list(rnd, t):
+    k = rnd.random()
+    if k < 0.25:
+        return None
+    fields = JOINFIELDS if t == 'Service' else JOINFIELDS[:4]
+    out = []
+    for i in range(rnd.choice((1, 1, 2, 2, 3))):
+        pfx = rnd.choice(fields + (['host'] if t == 'Service' else []) + ['host'] * (rnd.random() < 0.1))
+        m = rnd.random()
+        if m < 0.3:
+            out.append(pfx)                             # the whole joined object
+        elif m < 0.75:
+            out.append(pfx + '.' + rnd.choice(J_FIELDS[pfx]))
+        elif m < 0.85:
+            out.append(pfx + '.' + rnd.choice(A_HIDDEN[:6] + ['host']))
+        elif m < 0.93:
+            out.append(pfx + '.' + rnd.choice(J_BAD))
+        else:
+            out.append(rnd.choice(['service.host', 'service', 'vars.os', 'bogus.name', 'zone', 'host.host.name', 'Host.name']))
+    return out
+
+
+def gen_attrs_case(rnd):
+    """family attrs: GET /v1/objects/<type> with every shape of attrs / joins / all_joins / meta, for users whose permission for the
+    joined types differs (none, plain, filtered): which KEYS are serialised, which joined objects, whether any value embeds an object"""
+    FREE_SHARE[0] = 0.0
+    names = rnd.sample(HOSTS[:6] + SHARED, rnd.choice((2, 3, 3)))
+    lines, svcs, pairs = [], [], []
+
+    def refs(dense):
+        r = ''
+        for sc_, (key, pool) in NAV.items():
+            if rnd.random() < dense:
+                r += ' %s=%s' % (key, hx(rnd.choice(SHARED + pool)))
+        return r
+    for h in names:
+        vs = ' vars=%s:%s' % (hx('os'), hx(rnd.choice(VVALS))) if rnd.random() < 0.7 else ''
+        lines.append('pm_host name=%s%s%s' % (hx(h), vs, refs(0.5)))
+    for h in names:
+        for sv in rnd.sample(SVCS[:3], rnd.choice((1, 1, 2))):
+            lines.append('pm_svc host=%s name=%s%s' % (hx(h), hx(sv), refs(0.5)))
+            svcs.append(sv); pairs.append((h, sv))
+    es = []
+    k = rnd.random()
+    sp = mangle_case(rnd, rnd.choice(['objects/query/Service', 'objects/query/S*', 'objects/query/*ice']))
+    es.append(hx(sp) if k < 0.6 else hx(sp) + '@' + ','.join(rnd.choice([['nh:' + hx(names[0])], ['nh:' + hx(names[0]), 'not'], ['t']])))
+    k = rnd.random()
+    hp = mangle_case(rnd, rnd.choice(['objects/query/Host', 'objects/query/H*', 'objects/*/Host']))
+    if k < 0.3:
+        es.append(hx(hp))
+    elif k < 0.75:
+        es.append(hx(hp) + '@' + ','.join(rnd.choice([['nh:' + hx(names[0])], ['nh:' + hx(names[-1]), 'not'], ['vh:%s:%s' % (hx('os'), hx(rnd.choice(VVALS)))], ['f']])))
+    for jt in ['CheckCommand', 'TimePeriod', 'EventCommand', 'Endpoint']:
+        k = rnd.random()
+        if k < 0.45:
+            es.append(hx('objects/query/' + jt))
+        elif k < 0.7:
+            es.append(hx('objects/query/' + jt) + '@' + ','.join(rnd.choice([['no:' + hx(rnd.choice(SHARED))], ['mo:' + hx('pm?')], ['no:' + hx('pmdummy'), 'not']])))
+    rnd.shuffle(es)
+    lines.append('pm_user perms=' + ';'.join(es))
+    lines.append('pm_load')
+    lines.append('pm_perm perm=' + hx('objects/query/Host'))
+    for i in range(rnd.randint(6, 10)):
+        t = rnd.choice(['Service', 'Service', 'Service', 'Host'])
+        low = t.lower()
+        parts = ['pm_aq ptype=%ss' % low]
+        k = rnd.random()
+        if k < 0.2:
+            o = rnd.choice(names) if t == 'Host' else '%s!%s' % rnd.choice(pairs)
+            parts.append('name=%s' % hx(o))
+        elif k < 0.35:
+            order = rnd.sample(names, rnd.randint(1, len(names))) if t == 'Host' else rnd.sample(pairs, rnd.randint(1, len(pairs)))
+            parts.append('%ss=%s' % (low, ','.join(hx(o if t == 'Host' else '%s!%s' % o) for o in order)))
+        elif k < 0.5:
+            parts.append('filter=' + ','.join(rnd.choice([['mo:' + hx('*')], ['nh:' + hx(rnd.choice(names))], ['t'], ['nh:' + hx('nope')]])))
+        al = gen_attr_list(rnd, t)
+        if al is not None:
+            parts.append('attrs=' + (','.join(hx(x) for x in al) or '-'))
+        jl = gen_join_list(rnd, t)
+        if jl is not None:
+            jl = [x for x in jl if x]
+            parts.append('aj=' + (','.join(hx(x) for x in jl if not x.endswith('.')) or '-'))
+        if rnd.random() < 0.2:
+            parts.append('alljoins=1')
+        k = rnd.random()
+        if k < 0.3:
+            parts.append('meta=' + ','.join(hx(x) for x in rnd.choice([['used_by'], ['location'], ['used_by', 'location'], ['bogus'], ['location', 'Used_by']])))
+        lines.append(' '.join(parts))
+    return {'lines': lines, 'tags': {'family': 'attrs'}}
+
+
+def gen_race_case(rnd):
+    """family race (check-then-act): a write / action / query request is authorised for the object that has a name, another
+    writer deletes that object and creates a new one of the same name (for which the permission filter is usually false) before
+    the handler acts; directed schedule, see harness op pm_race.  Every addressing mode, with and without the name lock."""
+    FREE_SHARE[0] = 0.0
+    teams = ['blue', 'red', 'green']
+    nh = rnd.choice((2, 3, 3))
+    hosts = rnd.sample(HOSTS[:6], nh)
+    lines, pairs = [], []
+    hv = {}
+    for h in hosts:
+        hv[h] = rnd.choice(teams[:2])
+        lines.append('pm_host name=%s vars=%s:%s%s' % (hx(h), hx('t'), hx(hv[h]), nav_attrs(rnd, 0.3)))
+    svc_hosts = rnd.sample(hosts, rnd.randint(0, nh - 1))           # at least one host without services
+    sv = {}
+    for h in svc_hosts:
+        for s_ in rnd.sample(SVCS[:3], rnd.choice((1, 1, 2))):
+            sv[(h, s_)] = rnd.choice(teams[:2])
+            lines.append('pm_svc host=%s name=%s vars=%s:%s%s' % (hx(h), hx(s_), hx('t'), hx(sv[(h, s_)]), nav_attrs(rnd, 0.3)))
+            pairs.append((h, s_))
+    free_hosts = [h for h in hosts if h not in svc_hosts]
+    t = 'Service' if pairs and rnd.random() < 0.4 else 'Host'
+    low = t.lower()
+    sc = 'h' if t == 'Host' else rnd.choice('sso')
+    team = rnd.choice(teams[:2])
+    k = rnd.random()
+    if k < 0.6:
+        pf = ['v%s:%s:%s' % (sc, hx('t'), hx(team))]
+    elif k < 0.75:
+        pf = ['v%s:%s:%s' % (sc, hx('t'), hx(team)), 'not']
+    elif k < 0.9:
+        pf = ['v%s:%s:%s' % (sc, hx('t'), hx(team)), nav_atom(rnd), rnd.choice(['and', 'or'])]
+    else:
+        pf = ['n%s:%s' % ('h', hx(rnd.choice(hosts)))]              # by name: the new object is permitted as well
+    es = []
+    for pat in (['objects/modify/' + t, 'objects/modify/*', 'objects/*'], ['actions/reschedule-check', 'actions/*'],
+                ['objects/query/' + t, 'objects/query/*'], ['objects/delete/' + t, 'objects/delete/*']):
+        if rnd.random() < 0.9:
+            es.append(hx(mangle_case(rnd, rnd.choice(pat))) + ('@' + ','.join(pf) if rnd.random() < 0.92 else ''))
+    rnd.shuffle(es)
+    lines.append('pm_user sig=1 perms=' + (';'.join(es) or '-'))
+    lines.append('pm_load')
+    lines.append('pm_perm perm=' + hx('objects/modify/' + t))
+    targets = list(free_hosts) if t == 'Host' else ['%s!%s' % p for p in pairs]
+    rnd.shuffle(targets)
+    allnames = hosts if t == 'Host' else ['%s!%s' % p for p in pairs]
+    for tgt in targets[:rnd.choice((1, 1, 2))]:
+        kind = rnd.choice(['modify'] * 9 + ['action'] * 5 + ['query'] * 4 + ['delete'] * 2)
+        cur = hv[tgt] if t == 'Host' else sv[tuple(tgt.split('!'))]
+        k = rnd.random()
+        if k < 0.75:
+            nv = rnd.choice([x for x in teams if x != cur])
+            nvars = 'nvars=%s:%s' % (hx('t'), hx(nv))
+        elif k < 0.9:
+            nvars = 'nvars=%s:%s,%s:%s' % (hx('t'), hx(cur), hx('os'), hx('x'))       # same team: the new object is permitted too
+        else:
+            nvars = 'nvars=%s:%s' % (hx('os'), hx('x'))                               # no team at all
+        extra = nvars
+        for sc2, (key, pool) in NAV.items():
+            if sc2 != 'k' and rnd.random() < 0.25:
+                extra += ' n%s=%s' % (key, hx(rnd.choice(pool)))
+        k = rnd.random()
+        if kind == 'action':
+            if k < 0.4:
+                q = 'type=%s %s=%s' % (t, low, hx(tgt))
+            elif k < 0.6:
+                q = '%s=%s' % (low, hx(tgt))
+            elif k < 0.8:
+                q = 'type=%s filter=%s' % (t, rnd.choice(['mo:' + hx('*'), 't']))
+            else:
+                others = [x for x in allnames if x != tgt]
+                q = 'type=%s %ss=%s' % (t, low, ','.join(hx(x) for x in rnd.sample(others, min(len(others), 1)) + [tgt]))
+        else:
+            if k < 0.4:
+                q = 'name=%s' % hx(tgt)
+            elif k < 0.55:
+                q = '%s=%s' % (low, hx(tgt))
+            elif k < 0.7:
+                others = [x for x in allnames if x != tgt]
+                q = '%ss=%s' % (low, ','.join(hx(x) for x in rnd.sample(others, min(len(others), rnd.choice((0, 1)))) + [tgt]))
+            elif k < 0.85:
+                q = 'filter=%s' % rnd.choice(['mo:' + hx('*'), 't', 'lo:%d' % len(tgt), 'mo:' + hx(tgt[:1] + '*')])
+            elif k < 0.93 and t == 'Host':
+                q = 'filter=nh:%s' % hx(tgt)                           # targeted fast path
+            else:
+                q = ''
+        lines.append(('pm_race kind=%s ptype=%ss target=%s %s lock=%d %s' % (kind, low, hx(tgt), extra, rnd.choice((1, 1, 1, 0)), q)).rstrip())
+        # afterwards the name belongs to the new object: the same request, sequentially
+        if rnd.random() < 0.6:
+            if kind == 'action':
+                lines.append('pm_http kind=action act=reschedule-check type=%s %s=%s' % (t, low, hx(tgt)))
+            else:
+                lines.append('pm_http kind=%s ptype=%ss name=%s' % (rnd.choice(['modify', 'query']), low, hx(tgt)))
+    return {'lines': lines, 'tags': {'family': 'race'}}
+
+
+def gen_field_tables_case():
+    return {'lines': ['pm_fields type=%s' % t for t in ('Host', 'Service', 'CheckCommand', 'EventCommand', 'TimePeriod', 'Endpoint')],
+            'tags': {'family': 'field-tables'}}
+
+
 def generate(seed, tier):
     rnd = random.Random(seed)
     cases = gen_match_cases(rnd, tier)
@@ -806,11 +1042,16 @@ def generate(seed, tier):
         cases.append(gen_env_case(rnd))
     for i in range(n // 6):
         cases.append(gen_join_names_case(rnd))
+    cases.append(gen_field_tables_case())
+    for i in range(n // 10):
+        cases.append(gen_race_case(rnd))
+    for i in range(n // 4):
+        cases.append(gen_attrs_case(rnd))
     return cases
 
 
 def nontrivial(case, impl_lines):
-    if case['lines'] and case['lines'][0].startswith('pm_match'):
+    if case['lines'] and case['lines'][0].startswith(('pm_match', 'pm_fields')):
         return True
     return any((' objs=' in l and ' objs=-' not in l) or 'res=err' in l or 'code=404' in l for l in impl_lines)
 
@@ -824,11 +1065,22 @@ def classify(case, detail, impl_lines):
         return 'permission-matching'
     if 'rejected-first' in detail or 'request-served' in detail:
         return 'reject-first'
+    if 'race:' in detail:
+        return 'act-on-unauthorised-object'
+    if 'embedded-object' in detail:
+        return 'embedded-object'
+    if 'hidden-field' in detail:
+        return 'hidden-field'
     if 'joined' in detail:
         return 'join-unpermitted'
     if 'unpermitted' in detail or 'forbidden' in detail:
         return 'unpermitted-object'
     return 'other'
+
+
+def canon(lines):
+    # pm_race: whether the request was parked inside the permission filter is an input of the schedule, not an observation
+    return [re.sub(r' parked=[0-9?]', '', l) for l in lines]
 
 
 def keep_line(l):
@@ -947,6 +1199,21 @@ def extra_stats(cases, impl):
                 kv = dict(p.split('=', 1) for p in l.split()[1:] if '=' in p)
                 if 'jsel' in kv or kv.get('joins'):
                     c['http_join_requests'] += 1
+            elif op == 'pm_aq':
+                kv = dict(p.split('=', 1) for p in l.split()[1:] if '=' in p)
+                un = lambda h: binascii.unhexlify(h).decode() if h and h != '-' else ''
+                al = [un(x) for x in kv['attrs'].split(',')] if 'attrs' in kv else None
+                c['aq_attrs:' + ('absent' if al is None else 'given')] += 1
+                if al and any(x in A_NAVOBJ for x in al): c['aq_attrs_names_object_valued_field'] += 1
+                if al and any(x in A_HIDDEN for x in al): c['aq_attrs_names_no_user_view_field'] += 1
+                if 'aj' in kv:
+                    jl = [un(x) for x in kv['aj'].split(',')]
+                    c['aq_joins_with_field_selector' if any('.' in x for x in jl) else 'aq_joins_bare'] += 1
+                if 'alljoins' in kv: c['aq_all_joins'] += 1
+                if 'meta' in kv: c['aq_meta'] += 1
+            elif op == 'pm_race':
+                kv = dict(p.split('=', 1) for p in l.split()[1:] if '=' in p)
+                c['race:' + kv.get('kind', '?')] += 1
             elif op == 'pm_glob':
                 c['globals_declared'] += 1
             elif op == 'pm_user':
@@ -965,6 +1232,13 @@ def extra_stats(cases, impl):
             elif l.startswith('pm_http'):
                 c['http_404' if 'code=404' in l else 'http_ok'] += 1
                 if 'joins=' in l and 'joins=-' not in l: c['http_join_serialised'] += 1
+            elif l.startswith('pm_race'):
+                c['race_parked_in_permission_filter' if 'parked=1' in l else 'race_not_parked'] += 1
+                c['race_acted_' + (l.split('acted=')[1].split()[0] if 'acted=' in l else '?')] += 1
+            elif l.startswith('pm_aq'):
+                c['aq_' + (l.split('code=')[1].split()[0] if 'code=' in l else '?')] += 1
+                if ' joins=' in l and ' joins=-' not in l: c['aq_join_serialised'] += 1
+                if ' akeys=#' in l: c['aq_all_fields'] += 1
             elif l.startswith('pm_perm'):
                 c['perm_has' if 'has=1' in l else 'perm_missing'] += 1
                 if '!E' in l: c['perm_filter_throws'] += 1
